@@ -20,7 +20,11 @@ using VecU8 = std::vector<std::uint8_t>;
 using VecU32 = std::vector<std::uint32_t>;
 using Str = std::string;
 using WStr = std::wstring;
+using VecF = std::vector<float>;   // non-integral elements: ARY, element-wise loop
 }  // namespace vt
+
+nop::Status<void> x_rd_vecf(vt::VecF* v, vt::SpecReader* r) { return nop::Encoding<vt::VecF>::ReadPayload(nop::EncodingByte::Array, v, r); }
+nop::Status<void> x_rd_f32(float* v, vt::SpecReader* r) { return nop::Encoding<float>::Read(v, r); }
 
 #define VT_VM(T, t)                                                                                                   \
   nop::Status<void> x_rd_##t(T* v, vt::SpecReader* r) { return nop::Encoding<T>::ReadPayload(nop::EncodingByte::Binary, v, r); } \
